@@ -27,7 +27,7 @@ META = {
         "scalar arithmetic over the reals (no IEEE rounding); regime selection is exact because alpha is only compared with literals",
         "pow/log are uninterpreted with instantiated axioms: pow(b,0)=1, pow(b,1)=b, pow(1,e)=1, b>0 => pow(b,e)>0, pow(b,e)*pow(b,-e)=1, log(1)=0, sign of log",
         "down, nominal, up > 0 for the multiplicative codes 1 and 4; unconstrained reals for the additive codes 0, 2, 4p",
-        "code4 with alpha0 = 1 (the only value pyhf uses)",
+        "code4 with alpha0 in {1 (the value pyhf uses), 1/2, 2}",
         "real numpy array semantics for all index bookkeeping (einsum/where/stack on object arrays)",
         "oracle for code2 = continuous quadratic-core/linear-extrapolation function of the property statement (ROOT PiecewiseInterpolation code 2)",
     ],
@@ -36,12 +36,21 @@ META = {
         "thorough": "as quick with nsyst<=3, nalpha<=3, all histories of <=3 calls over widths 1..3",
     },
     "stubs": ["math.pow/math.log in the _slow_code1/_slow_code4 classes forwarded to the symbolic scalar (module attribute shim)"],
-    "outside_claim": ["jax/pytorch/tensorflow kernels", "rounding inside a piece", "code4 alpha0 != 1"],
+    "outside_claim": ["jax/pytorch/tensorflow kernels", "rounding inside a piece", "code4 alpha0 other than 1, 1/2, 2"],
 }
+
+
+ALPHA0 = {"code4@1/2": F(1, 2), "code4@2": F(2)}
 
 
 def items(tier, seed):
     out = []
+    for code in ALPHA0:
+        out.append(("formula", code, 1, 1, 1, 1))
+        out.append(("formula", code, 2, 1, 2, 2))
+        out.append(("calculus", code, 1, 1, 1, 1))
+        out.append(("slow", code, 1, 1, 1, 1))
+        out.append(("history", code, 1, 1, 1, (1, 2, 1)))
     for code in CODES:
         out.append(("formula", code, 1, 1, 1, 1))
         out.append(("formula", code, 2, 2, 2, 2))
@@ -71,8 +80,24 @@ class _MathShim:
         return SV(x).log()
 
 
+def _base(code):
+    return code.split("@")[0]
+
+
+def _mk(code, hs, fast=True):
+    """interpolator instance for a code label (code4@<alpha0> passes the non-default alpha0)"""
+    cls = pyhf.interpolators.get(CODES[_base(code)], do_tensorized_calc=fast)
+    if code in ALPHA0:
+        return cls(hs, alpha0=float(ALPHA0[code]))
+    return cls(hs)
+
+
+def _orc(env, code, a, lo, nom, hi):
+    return oracle.interp(env, _base(code), a, lo, nom, hi, alpha0=ALPHA0.get(code, 1))
+
+
 def _histosets(env, code, ns, nh, nb):
-    pos = code in MULT
+    pos = _base(code) in MULT
     hs = [[[[env.sym(f"{k}_{s}_{h}_{b}", positive=pos) for b in range(nb)] for k in ("lo", "nom", "hi")]
            for h in range(nh)] for s in range(ns)]
     return hs
@@ -89,7 +114,7 @@ def harness_for(item):
         tb = env.install_backend()
         hs = _histosets(env, code, ns, nh, nb)
         al = [[env.sym(f"a_{s}_{k}") for k in range(na)] for s in range(ns)]
-        interp = pyhf.interpolators.get(CODES[code])(hs)
+        interp = _mk(code, hs)
         res = interp(tb.astensor(al))
         if tuple(np.shape(res)) != (ns, nh, na, nb):
             env.fail("shape", f"result shape {np.shape(res)} != {(ns, nh, na, nb)}", key=_cellkey(code, "shape"))
@@ -97,14 +122,16 @@ def harness_for(item):
         for s, h, k, b in itertools.product(range(ns), range(nh), range(na), range(nb)):
             lo, nom, hi = hs[s][h][0][b], hs[s][h][1][b], hs[s][h][2][b]
             side = "formula"
-            env.eq(f"formula[{s},{h},{k},{b}]", res[s, h, k, b], oracle.interp(env, code, al[s][k], lo, nom, hi),
+            env.eq(f"formula[{s},{h},{k},{b}]", res[s, h, k, b], _orc(env, code, al[s][k], lo, nom, hi),
                    key=_cellkey(code, side))
         # anchors: neutral at 0, up variation at +1, down variation at -1
         for aval, name in ((0, "0"), (1, "+1"), (-1, "-1")):
+            if aval != 0 and ALPHA0.get(code, 1) > 1:
+                continue      # with alpha0 > 1 the points +-1 lie in the polynomial core: not anchors by design
             r = interp(tb.astensor([[float(aval)] * na for _ in range(ns)]))
             for s, h, b in itertools.product(range(ns), range(nh), range(nb)):
                 lo, nom, hi = (env.num(hs[s][h][j][b]) for j in range(3))
-                if code in MULT:
+                if _base(code) in MULT:
                     want = {0: env.num(1), 1: hi / nom, -1: lo / nom}[aval]
                 else:
                     want = {0: env.num(0), 1: hi - nom, -1: lo - nom}[aval]
@@ -116,16 +143,19 @@ def harness_for(item):
         eqv = lambda *a, **k: env.eq(*a, validate=False, **k)  # noqa: E731 (mode-dependent obligations)
         hs = _histosets(env, code, 1, 1, 1)
         lo, nom, hi = (hs[0][0][j][0] for j in range(3))
-        interp = pyhf.interpolators.get(CODES[code])(hs)
+        interp = _mk(code, hs)
         N = env.num
+        z0 = ALPHA0.get(code, 1)
+        bps_code = [-z0, z0] if code in ALPHA0 else BREAKS[code]
+        smooth = SMOOTH[_base(code)]
         if env.mode == "sym":
             a = env.sym("a")
             az = zexpr(a)
             T = zexpr(SV(interp(tb.astensor([[a]]))[0, 0, 0, 0]))
             hyps = list(CTX.assumptions)
-            bps = BREAKS[code]
+            bps = bps_code
             derivs = [T]
-            for _ in range(SMOOTH[code]):
+            for _ in range(smooth):
                 derivs.append(decide.diff(derivs[-1], az))
             for c in bps:
                 lower = [x for x in bps if x < c]
@@ -135,14 +165,14 @@ def harness_for(item):
                 for order, D in enumerate(derivs):
                     L = decide.subst_value(decide.restrict(D, left_region, hyps), az, c)
                     R = decide.subst_value(decide.restrict(D, right_region, hyps), az, c)
-                    eqv(f"C{order}@{c:+d}", SV(L), SV(R), key=_cellkey(code, f"C{order}@{c:+d}"))
+                    eqv(f"C{order}@{float(c):+g}", SV(L), SV(R), key=_cellkey(code, f"C{order}@{float(c):+g}"))
                     if order == 0:
                         M = decide.subst_value(T, az, c)
-                        eqv(f"value@{c:+d}=left-limit", SV(M), SV(L), key=_cellkey(code, f"C0@{c:+d}"))
+                        eqv(f"value@{float(c):+g}=left-limit", SV(M), SV(L), key=_cellkey(code, f"C0@{float(c):+g}"))
             # extrapolation: slope (additive) / region formula (multiplicative) of the matching side
             up_reg, dn_reg = [az > max(bps)], [az < min(bps)]
             Tu, Td = decide.restrict(T, up_reg, hyps), decide.restrict(T, dn_reg, hyps)
-            if code in MULT:
+            if _base(code) in MULT:
                 eqv("extrap+:formula", SV(Tu), (N(hi) / N(nom)) ** a, key=_cellkey(code, "extrap+"))
                 eqv("extrap-:formula", SV(Td), (N(lo) / N(nom)) ** (-a), key=_cellkey(code, "extrap-"))
             else:
@@ -153,21 +183,21 @@ def harness_for(item):
             # concrete replay: finite differences on the real implementation
             f = lambda x: float(interp(tb.astensor([[x]]))[0, 0, 0, 0])  # noqa: E731
             scale = max(1.0, abs(float(lo)), abs(float(nom)), abs(float(hi)))
-            bps = BREAKS[code]
+            bps = [float(x) for x in bps_code]
             for c in bps:
                 e = 2.0 ** -12
                 d0 = f(c + 2.0 ** -40) - f(c - 2.0 ** -40)
-                _tol(env, f"C0@{c:+d}", d0, 1e-9 * scale, _cellkey(code, f"C0@{c:+d}"))
-                _tol(env, f"value@{c:+d}=left-limit", f(c) - f(c - 2.0 ** -40), 1e-9 * scale, _cellkey(code, f"C0@{c:+d}"))
-                if SMOOTH[code] >= 1:
+                _tol(env, f"C0@{c:+g}", d0, 1e-9 * scale, _cellkey(code, f"C0@{c:+g}"))
+                _tol(env, f"value@{c:+g}=left-limit", f(c) - f(c - 2.0 ** -40), 1e-9 * scale, _cellkey(code, f"C0@{c:+g}"))
+                if smooth >= 1:
                     d1 = (f(c + 2 * e) - f(c + e)) / e - (f(c - e) - f(c - 2 * e)) / e
-                    _tol(env, f"C1@{c:+d}", d1, 1e-2 * scale, _cellkey(code, f"C1@{c:+d}"))
-                if SMOOTH[code] >= 2:
+                    _tol(env, f"C1@{c:+g}", d1, 1e-2 * scale, _cellkey(code, f"C1@{c:+g}"))
+                if smooth >= 2:
                     e2 = 2.0 ** -8
                     r = (f(c + 3 * e2) - 2 * f(c + 2 * e2) + f(c + e2)) / e2 ** 2
                     l = (f(c - 3 * e2) - 2 * f(c - 2 * e2) + f(c - e2)) / e2 ** 2
-                    _tol(env, f"C2@{c:+d}", r - l, 0.2 * scale * (1 + abs(r)), _cellkey(code, f"C2@{c:+d}"))
-            if code in MULT:
+                    _tol(env, f"C2@{c:+g}", r - l, 0.2 * scale * (1 + abs(r)), _cellkey(code, f"C2@{c:+g}"))
+            if _base(code) in MULT:
                 for x, nm, base, sgn in ((2.5, "extrap+:formula", float(hi) / float(nom), 1), (-2.5, "extrap-:formula", float(lo) / float(nom), -1)):
                     eqv(nm, f(x), base ** (sgn * x), key=_cellkey(code, nm.split(":")[0]))
             else:
@@ -179,8 +209,7 @@ def harness_for(item):
         tb = env.install_backend()
         hs = _histosets(env, code, ns, nh, nb)
         al = [[env.sym(f"a_{s}_{k}") for k in range(na)] for s in range(ns)]
-        fast = pyhf.interpolators.get(CODES[code])(hs)
-        mods = [pyhf.interpolators.code1, pyhf.interpolators.code4]
+        fast = _mk(code, hs)
         import importlib
         mods = [importlib.import_module("pyhf.interpolators.code1"), importlib.import_module("pyhf.interpolators.code4")]
         saved = [m.math for m in mods]
@@ -188,7 +217,7 @@ def harness_for(item):
             if env.mode == "sym":
                 for m in mods:
                     m.math = _MathShim
-            slowi = pyhf.interpolators.get(CODES[code], do_tensorized_calc=False)(hs)
+            slowi = _mk(code, hs, fast=False)
             rs = slowi(tb.astensor(al))
         finally:
             for m, sv in zip(mods, saved):
@@ -198,20 +227,20 @@ def harness_for(item):
             env.eq(f"fast=slow[{s},{h},{k},{b}]", rf[s, h, k, b], rs[s][h][k][b] if isinstance(rs, list) else rs[s, h, k, b],
                    key=_cellkey(code, "fast=slow"))
             lo, nom, hi = hs[s][h][0][b], hs[s][h][1][b], hs[s][h][2][b]
-            env.eq(f"slow=formula[{s},{h},{k},{b}]", rs[s, h, k, b], oracle.interp(env, code, al[s][k], lo, nom, hi),
+            env.eq(f"slow=formula[{s},{h},{k},{b}]", rs[s, h, k, b], _orc(env, code, al[s][k], lo, nom, hi),
                    key=_cellkey(code, "slow-formula"))
 
     def history(env):
         tb = env.install_backend()
         widths = na
         hs = _histosets(env, code, ns, nh, nb)
-        inst = pyhf.interpolators.get(CODES[code])(hs)
+        inst = _mk(code, hs)
         last = None
         for step, w in enumerate(widths):
             al = [[env.sym(f"a{step}_{s}_{k}") for k in range(w)] for s in range(ns)]
             last = (al, inst(tb.astensor(al)), w)
         al, got, w = last
-        fresh_inst = pyhf.interpolators.get(CODES[code])(hs)
+        fresh_inst = _mk(code, hs)
         want = fresh_inst(tb.astensor(al))
         if tuple(np.shape(got)) != (ns, nh, w, nb):
             env.fail("history:shape", f"{np.shape(got)}", key=_cellkey(code, "history"))
@@ -220,7 +249,7 @@ def harness_for(item):
             env.eq(f"history{widths}[{s},{h},{k},{b}]", got[s, h, k, b], want[s, h, k, b], key=_cellkey(code, "history"))
             lo, nom, hi = hs[s][h][0][b], hs[s][h][1][b], hs[s][h][2][b]
             env.eq(f"history-formula{widths}[{s},{h},{k},{b}]", got[s, h, k, b],
-                   oracle.interp(env, code, al[s][k], lo, nom, hi), key=_cellkey(code, "history-formula"))
+                   _orc(env, code, al[s][k], lo, nom, hi), key=_cellkey(code, "history-formula"))
 
     return {"formula": formula, "calculus": calculus, "slow": slow, "history": history}[kind]
 
